@@ -38,3 +38,29 @@
     (! (=> (and (<= 0 n) (= (mod n 8) 0)) (= (bits.allboolFrom (pack.beSwap b n) 0 n) (bits.allboolFrom b 0 n)))
        :pattern ((bits.allboolFrom (pack.beSwap b n) 0 n))))
   :lemmas (allbool_beSwap_fwd allbool_beSwap_bwd))
+
+; ---------------- canonical on-chain packings (C03, C08) ----------------
+; insertion: uint32 startIndex || uint256 preRoot || uint256 postRoot || uint256 idComms[0] || ...   (big-endian bytes,
+; bits LSB-first inside each byte); bit t of the message:
+(define-fun pack.insBit ((start Int) (pre Int) (post Int) (idc (Array Int Int)) (t Int)) Int
+  (ite (< t 32) (bits.bit start (pack.beIdx t 32))
+  (ite (< t 288) (bits.bit pre (pack.beIdx (- t 32) 256))
+  (ite (< t 544) (bits.bit post (pack.beIdx (- t 288) 256))
+       (bits.bit (select idc (div (- t 544) 256)) (pack.beIdx (mod (- t 544) 256) 256))))))
+(declare-fun pack.insBits (Int Int Int (Array Int Int)) (Array Int Int))
+(axiom insBits_sel
+  (forall ((start Int) (pre Int) (post Int) (idc (Array Int Int)) (t Int))
+    (! (= (select (pack.insBits start pre post idc) t) (pack.insBit start pre post idc t))
+       :pattern ((select (pack.insBits start pre post idc) t)))))
+
+; deletion: uint32 indices[0..b) || uint256 preRoot || uint256 postRoot
+(define-fun pack.delBit ((dix (Array Int Int)) (pre Int) (post Int) (b Int) (t Int)) Int
+  (ite (< t (* 32 b)) (bits.bit (select dix (div t 32)) (pack.beIdx (mod t 32) 32))
+  (ite (< t (+ (* 32 b) 256)) (bits.bit pre (pack.beIdx (- t (* 32 b)) 256))
+       (bits.bit post (pack.beIdx (- t (+ (* 32 b) 256)) 256)))))
+(declare-fun pack.delBits ((Array Int Int) Int Int Int) (Array Int Int))
+(axiom delBits_sel
+  (forall ((dix (Array Int Int)) (pre Int) (post Int) (b Int) (t Int))
+    (! (= (select (pack.delBits dix pre post b) t) (pack.delBit dix pre post b t))
+       :pattern ((select (pack.delBits dix pre post b) t)))))
+(always-reveal pack.insBit pack.delBit)
